@@ -25,6 +25,17 @@ the stored values at `(i, j)`); the scalar type only needs `[Zero α] [Add α]` 
 are shown to be the same fold.  "Structurally valid layout" is `Csr.valid`: monotone row pointers starting at 0 and
 ending at the number of entries, in-range strictly increasing column indices in every row — or no layout arrays at
 all (the entry-free container `SparseMatrixCSR(rows, cols)`).  All theorems hold for all sizes.
+
+**Modelled as unbounded.**  `Index`, the index types `IT_` (`unsigned int`, `unsigned long`), all array sizes, loop counters and
+scratch buffers of the C++ code are `Nat` / `Array` here, and the scalars are exact (`Rat`, or any `[Zero α] [Add α]`).  The
+theorems therefore cannot see narrowing casts (`IT_(…)` in transpose / convert / permute, `int(row)` in the BCSR line interface),
+the scratch arrays of the counting sort (`cols + 1` buckets) and of `permute` (`new IT_[rows+1]`, `new DT_[nnz]`), `MemoryPool`'s
+rounding of allocations to multiples of 4 elements, `SparseVector`'s 1000-slot allocation step, the quadratic in-row insertion sort,
+or the linear `row_numbers` search of CSCR.  What ties these to the model is the correspondence sub-stream `boundary-sizes` of
+`checks/props/c02.py`: sizes, indices and counts just below, at and above 128, 256, 1000 (thorough: 32768 and 2^16 = 65536), with the
+content at the high end (last rows, highest columns), rows with ≥ 256 entries, ≥ 256 used CSCR rows, every column permutation of
+rows with 3–6 entries / blocks — executed on the real code, compared with these models and judged by the independent oracle.
+Index values ≥ 2^32 are not reachable (memory); for them only `C02.stepX_itx_eq` / `C02.widen_back_id` (identity iff they fit) speak.
 -/
 open FeatModel FeatModel.LA
 
